@@ -88,6 +88,49 @@ def body_roundtrip(rep, case, sub="roundtrip"):
                 raise Violation("C11/roundtrip", one, text, back)
 
 
+def body_clock_moves(rep, case):
+    """One process, one zone, the host's clock moving forward between encodings - across the local midnight, across the UTC
+    midnight, across a week: every encoding is on the local date of ITS OWN moment ("on today's local date", "on any date")."""
+    tools = _tools()
+    zname, m = case["zone"], case["minute"]
+    y, mo, d = case["date"]
+    midnight = int(dt.datetime(y, mo, d, tzinfo=vclock.zone(zname)).timestamp())
+    for k, off in enumerate(case["offsets"]):
+        epoch = midnight + off
+        with vclock.frozen_epoch(zname, epoch):
+            today = vclock.wall(zname, epoch).date()
+            cands = vclock.candidates(zname, today, m // 60, m % 60)
+            one = dict(case, step=k)
+            if not cands:
+                rep.label("nonexistent-skipped")
+                continue
+            utc_day_same = k > 0 and (midnight + case["offsets"][k - 1]) // 86400 == epoch // 86400
+            local_day_moved = k > 0 and vclock.wall(zname, midnight + case["offsets"][k - 1]).date() != today
+            rep.tick("clock-moves-on", key=(zname, y, mo, d, m, off), nontrivial=k > 0, sample=one,
+                     labels=("local-date-changed-within-one-UTC-day",) if utc_day_same and local_day_moved else
+                            ("local-date-changed",) if local_day_moved else ("same-local-date",))
+            try:
+                enc = tools.time_to_hexadecimal_timestamp(hhmm(m))
+                val = int.from_bytes(bytes.fromhex(enc), "little") if len(enc) == 8 else None
+            except Exception as exc:
+                raise Violation("C11/encode-raises/after-clock-moved", one, sorted(cands), f"{type(exc).__name__}: {exc}")
+            if val not in cands:
+                raise Violation("C11/encode-wrong-epoch/after-clock-moved" + ("/local-midnight-inside-one-UTC-day" if utc_day_same and local_day_moved else ""),
+                                one, sorted(cands), val)
+            back = tools.hexadecimale_timestamp_to_localtime(enc.encode())
+            if back != hhmm(m):
+                raise Violation("C11/roundtrip/after-clock-moved", one, hhmm(m), back)
+
+
+def strat_clock_moves():
+    steps = st.lists(st.sampled_from([1, 2, 59, 60, 600, 3599, 3600, 7200, 6 * 3600, 43200, 86399, 86400, 7 * 86400]), min_size=1, max_size=6)
+    return st.builds(
+        lambda z, day, first, steps, m: {"zone": z, "date": [day.year, day.month, day.day], "minute": m,
+                                         "offsets": [first + sum(steps[:i]) for i in range(len(steps) + 1)]},
+        st.sampled_from(vclock.ZONES), st.dates(dt.date(2001, 1, 2), dt.date(2037, 12, 1)),
+        st.sampled_from([-7200, -3600, -61, -2, -1, 0, 1, 43200, 86398]), steps, st.integers(0, 1439))
+
+
 def body_forms(rep, case):
     """The clock text handed over as a str-subclass instance / a (str, Enum) member: same encoding as the plain str."""
     from .. import gen
@@ -242,6 +285,7 @@ def subchecks(tier):
         Sub("roundtrip", body_roundtrip, cases=cases_roundtrip(tier), shards=16, exhaustive=False),
         Sub("random-dates", lambda rep, case: body_roundtrip(rep, case, "random-dates"), strategy=strat_random_dates,
             n=40_000 if big else 600, shards=16 if big else 2),
+        Sub("clock-moves-on", body_clock_moves, strategy=strat_clock_moves, n=40_000 if big else 1200, shards=16 if big else 2),
         Sub("decode-any-epoch", body_decode, strategy=strat_decode, n=200_000 if big else 2500, shards=16 if big else 2),
         Sub("text-forms", body_forms, cases=cases_forms, shards=2),
         Sub("malformed", body_malformed, strategy=strat_malformed, n=20_000 if big else 800, shards=4 if big else 1),
